@@ -261,9 +261,17 @@ reg(Prop(
     rule=HIST + "len/is_empty/capacity are compared with the model after every step; a counting global allocator asserts zero allocator calls inside every create below capacity and every create_within_capacity; drain patterns (evens, prefix, suffix, random subset, all) are followed by a refill to exactly capacity() that must succeed without growth and then be refused, with the argument handed back intact; the free list is walked via H1 (exactly capacity-len distinct free positions, no cycle); real runs to 2^24 entities from initial capacity 2^24, 2^24-1 and 0 check the limit panics and that nothing is corrupted. evaluations = history steps + 2^24-scale creations; " + STATES,
     nontrivial_key="storage_states", assumptions=COMMON_ASSUME, design_ref="DESIGN.md section 4, C12"))
 
+def plan_c13(tier, seed):
+    jobs = history_plan("clone", tier, seed)
+    # pending events must be cloned too: the same workload built with the events feature
+    k = 1 if tier == "quick" else 6
+    jobs += shards(Config("dbg", ("events",)), "clone", "main", 3, 2500 * k, seed + 30, timeout=3000)
+    jobs += shards(Config("rel", ("events",)), "clone", "small", 3, 5000 * k, seed + 31, timeout=3000)
+    return jobs
+
+
 reg(Prop(
-    "C13", "exploration",
-    lambda tier, seed: history_plan("clone", tier, seed),
+    "C13", "exploration", plan_c13,
     accept=["C13"],
     floors={"clones_made": 500, "clone.src_state.cap0": 5, "clone.src_state.empty": 5, "clone.src_state.full": 5, "clone.src_state.partial-after-churn": 50, "refill_cycles": 50},
     rule=HIST + "worlds are cloned at arbitrary points (up to 4 alive): right after clone() the raw bookkeeping dumps (H1), pending events and every probe (all lookup paths for live, stale and direct handles; iteration) must agree between clone and source, each live component cloned exactly once; then both diverge under independent random histories with full probes of both, including drain/refill-to-capacity on clones; any violation in a world of a clone lineage is attributed to C13. evaluations = history steps; " + STATES,
